@@ -510,6 +510,20 @@ def rule_units(ctx, R):
             ok = len(pushes) >= 1 and all(p == IDX for p in pushes)
             R.check(ok, "units:last:table", "the command -> block table records, for every pre-executed command, the index of the block it was put in: %s" % pushes, t.where)
         R.check(bool(m), "units:last", "the pending ♡ target is emitted as a block index looked up in the command -> block table, not as the interpreter's command index: %s" % r[:90], t.where)
+    # no pending target is emitted as `None`, a pending one as `Some(..)`: bound to the variant of the jump source
+    for t in find("last = Option::"):
+        r = roles.of_origin(t.args[0])
+        evl = Events(b, fb, roles=roles)
+        where_none = [bi for bi, tt in b.calls() if "K'None'" in " ".join(roles.of_operand(a, bi) for a in tt["args"]) and callee_name(tt["f"], fb).rsplit("::", 1)[-1] in ("from", "to_string", "to_owned", "into")]
+        where_some = [tp.block for tp in tpls if tp.skeleton() == "Some({0})"]
+        ok = len(where_none) == 1 and len(where_some) == 1 and "K'None'" in r and "Some(" in r
+        if ok:
+            ln = [l for l in dominating_edge_labels(cfg, b, evl, where_none[0]) if l.startswith("SW[DISCR(LATEST)]")]
+            ls = [l for l in dominating_edge_labels(cfg, b, evl, where_some[0]) if l.startswith("SW[DISCR(LATEST)]")]
+            ok = ln == ["SW[DISCR(LATEST)]=0"] and ls == ["SW[DISCR(LATEST)]=1"]
+        R.check(ok, "units:last:variants", "`last = Option::None` is emitted when the pre-executed state has no jump source and `Option::Some(block)` when it has one: %s" % r[:110], t.where)
+    from .util import check_whole_loops
+    check_whole_loops(R, "units:loops:whole", b, cfg, "restoring, grouping, label emission and block emission go over all stacks / commands / labels / blocks (a skipped element does not end the loop)")
     # ... and it records one entry for every pre-executed command: no iteration of the grouping loop bypasses the push
     tab_ = [l for l, d in enumerate(b.locals) if d["ty"] == "std::vec::Vec<usize>" and l in b.local_names()]
     tpush = [bi for bi, tt in b.calls() if callee_name(tt["f"], fb) == "std::vec::Vec::push" and vars_.root_key(tt["args"][0]) in [("L", x) for x in tab_]]
@@ -555,6 +569,7 @@ def rule_units(ctx, R):
     for t in find("point.insert("):
         rs = [roles.of_origin(a) for a in t.args]
         R.check(rs[1].endswith(".1") and "State::get_all_point" in rs[1], "units:point:source", "emitted label targets come from the label table's entries: %s" % rs, t.where)
+        R.check(rs[0] == rs[1][:-2] + ".0", "units:point:key", "the emitted label key is the key of the same table entry whose target is emitted: %s" % rs, t.where)
     # every label target is rewritten to a block index inside the grouping loop
     rew = []
     for bi, blk in enumerate(b.blocks):
@@ -1085,3 +1100,19 @@ def rule_buildchain(ctx, R):
 
 
 RULES.append(("C03.BUILDCHAIN", "`hyeong build` writes the emitted text, whole, to the build project's main.rs before cargo runs on that project; the project is created when missing", rule_buildchain))
+
+
+def _codeapi(ctx, R):
+    from . import p_c01
+    return p_c01.rule_codeapi(ctx, R)
+
+
+RULES.append(("C03.CODEAPI", "the words kind / syllable count / dot count / area count / area mean the fields of the command record: getters and constructors of UnOptCode and OptCode (shared with C01.CODEAPI)", _codeapi))
+
+
+def _streams(ctx, R):
+    from . import p_c01
+    return p_c01.rule_streams(ctx, R)
+
+
+RULES.append(("C03.STREAMS", "what `run` writes to its first writer reaches the process's standard output, its second the standard error (shared with C01.STREAMS)", _streams))
